@@ -65,8 +65,19 @@ def e2e_case(rng, dll, ndtc, cycle_us, ncycles, stop_after):
     j = w.j
     lamps = {k: rng.randrange(5) for k in KEYS}
     cycles = []
+    # half of the applications keep ONE lamp dict and ONE code list and update them in place between the cycles
+    in_place = rng.random() < 0.5
+    kept = [dict(zip(('spn', 'fmi', 'oc'), rand_dtc(rng))) for _ in range(ndtc)]
 
     def source():
+        if in_place:
+            lamps[rng.choice(KEYS)] = rng.randrange(5)
+            for x in kept:
+                x['oc'] = (x['oc'] + 1) % 127
+            if kept and rng.random() < 0.5:
+                kept[rng.randrange(len(kept))].update(zip(('spn', 'fmi', 'oc'), rand_dtc(rng)))
+            cycles.append((dict(lamps), [dict(x) for x in kept]))
+            return lamps, kept
         dtcs = [dict(zip(('spn', 'fmi', 'oc'), rand_dtc(rng))) for _ in range(ndtc)]
         cycles.append((dict(lamps), [dict(x) for x in dtcs]))
         return dict(lamps), dtcs
@@ -103,8 +114,19 @@ def overlap_case(rng, dll, ndtc, cycle_us, run_us):
     j = w.j
     lamps = {k: rng.randrange(5) for k in KEYS}
     cycles = []
+    # half of the applications keep ONE lamp dict and ONE code list and update them in place between the cycles
+    in_place = rng.random() < 0.5
+    kept = [dict(zip(('spn', 'fmi', 'oc'), rand_dtc(rng))) for _ in range(ndtc)]
 
     def source():
+        if in_place:
+            lamps[rng.choice(KEYS)] = rng.randrange(5)
+            for x in kept:
+                x['oc'] = (x['oc'] + 1) % 127
+            if kept and rng.random() < 0.5:
+                kept[rng.randrange(len(kept))].update(zip(('spn', 'fmi', 'oc'), rand_dtc(rng)))
+            cycles.append((dict(lamps), [dict(x) for x in kept]))
+            return lamps, kept
         dtcs = [dict(zip(('spn', 'fmi', 'oc'), rand_dtc(rng))) for _ in range(ndtc)]
         cycles.append((dict(lamps), [dict(x) for x in dtcs]))
         return dict(lamps), dtcs
